@@ -508,6 +508,11 @@ class World:
         stored = m.do_commit()
         for n in stored:
             self.oids[n] = self.objs[n]._p_oid
+        noid = sorted(n for n in stored if self.oids[n] is None)
+        if noid:
+            self.fail('commit-records', 'object-without-oid',
+                      'after a successful commit %r (changed or reachable from changed objects) have no oid' % noid)
+            return
         after = self.last_txn()
         if stored:
             exp = sorted(self.oids[n] for n in stored)
